@@ -174,6 +174,9 @@ pub fn install_panic_hook() {
         } else {
             "<non-string panic>".to_string()
         };
+        if std::env::var("VERIF_PANIC_TRACE").is_ok() {
+            eprintln!("panic at {loc}: {msg}");
+        }
         LAST_PANIC.with(|l| *l.borrow_mut() = Some((loc, msg)));
     }));
 }
